@@ -233,7 +233,34 @@ class World:
         return [Decimal(n), Decimal(n) / 1000, Decimal(f'{n % 97 + 1}E-9'), Decimal(f'{n % 90 + 10}0.0'), Decimal(f'-{n % 50 + 1}E-7'),
                 Decimal(f'{n}.500'), Decimal(n * 1000)][n % 7]
 
+    _TYPED_SKIP = {'Handle', 'DescriptorHandle', 'DescriptorVersion', 'StateVersion', 'BindingMdibVersion', 'UnbindingMdibVersion',
+                   'BindingStartTime', 'BindingEndTime', 'DateAndTime', 'DeterminationTime', 'OperatingHours'}
+
+    def typed_extra(self, obj, n):
+        """Type-directed part of the mutators: one of the object's own attribute properties of a plain type (integer, boolean,
+        timestamp, decimal) gets a value, or - if it is optional - is cleared. Every class contributes the attributes only it
+        has (ClockState.LastSet, BatteryState capacities, ...), not just the members all classes of a kind share."""
+        from sdc11073.xml_types import xml_structure as xs
+        plain = (xs.IntegerAttributeProperty, xs.BooleanAttributeProperty, xs.TimestampAttributeProperty, xs.DecimalAttributeProperty)
+        props = [(name, p) for name, p in obj.sorted_container_properties()
+                 if name not in self._TYPED_SKIP and isinstance(p, plain)
+                 and not isinstance(p, (xs.VersionCounterAttributeProperty, xs.CurrentTimestampAttributeProperty, xs.QualityIndicatorAttributeProperty))]
+        if not props:
+            return
+        name, p = props[(n // 3) % len(props)]
+        if n % 7 == 6 and getattr(p, '_is_optional', False):
+            setattr(obj, name, None)
+        elif isinstance(p, xs.BooleanAttributeProperty):
+            setattr(obj, name, n % 2 == 0)
+        elif isinstance(p, xs.IntegerAttributeProperty):
+            setattr(obj, name, n % 5000)
+        elif isinstance(p, xs.TimestampAttributeProperty):
+            setattr(obj, name, float(1500000000 + n))    # (seconds as float, the type the reader produces)
+        else:
+            setattr(obj, name, Decimal(n % 1000))
+
     def mutate_state(self, st, n):
+        self.typed_extra(st, n)
         k = kind_of(st)
         pm = self.mdib.data_model.pm_types
         if k == 'metric':
@@ -267,7 +294,8 @@ class World:
     def mutate_descr(self, d, n):
         pm = self.mdib.data_model.pm_types
         vals = list(pm.SafetyClassification)
-        d.SafetyClassification = vals[n % len(vals)]
+        d.SafetyClassification = vals[n % len(vals)] if n % 5 != 4 else None     # (an optional attribute is also cleared again)
+        self.typed_extra(d, n)
         if n % 3 == 0:
             d.Type = pm.CodedValue(str(n), 'urn:verif')
         # members the tables are indexed by (descriptions.source / condition_signaled)
@@ -486,6 +514,9 @@ class World:
                     h = r.choice(chs) if (chs and r.random() < 0.35) else f'as{self.new_n}'
                     self.new_n += 1
                     which = r.choice(['addState', 'writeNew'])
+                    gone_now = sorted(x for x in self.mdib.context_states.handle_version_lookup if x not in chs)
+                    if which == 'writeNew' and gone_now and r.random() < 0.4:
+                        h = r.choice(gone_now)        # the handle of a deleted state comes back through the entity interface
                     anonymous = which == 'addState' and r.random() < 0.25
                     if anonymous:
                         h = f'uuid{self.new_n}'      # a container without Handle: the transaction has to give it one
